@@ -562,6 +562,7 @@ fn leg_b(o: &Opts) -> i32 {
     let mut rep = Report::new(&o.out, "B", o.shard);
     // stand-in cross-check: a sequential execution under the patched dependency equals the golden table
     let mut checked: std::collections::BTreeSet<usize> = Default::default();
+    let mut unjudgeable: std::collections::BTreeSet<usize> = Default::default();
     let mut inconclusive = 0u64;
     let mut total_runs = 0u64;
     for run in 0..runs {
@@ -587,8 +588,13 @@ fn leg_b(o: &Opts) -> i32 {
                 match judge(&sc, &r, &reference, 50_000_000) {
                     Ok(None) => rep.count("standin_crosschecks_equal_to_real_dependency", 1),
                     Ok(Some(v)) => {
-                        eprintln!("legB: the patched dependency disagrees with the real one sequentially on {}: {} (harness error)", cases[local].id, v.detail);
-                        return 2;
+                        // Either the tree is not deterministic across processes (legs A and C decide
+                        // that with the real dependency) or the stand-in is not faithful.  Leg B cannot
+                        // tell, so it does not judge this program; the driver turns a disagreement
+                        // that legs A and C do not explain into a harness error.
+                        rep.count("standin_disagreements", 1);
+                        rep.event(&format!("B\tstandin-disagreement\t{}\t{}", cases[local].id, v.detail));
+                        unjudgeable.insert(*gi);
                     }
                     Err(e) => {
                         eprintln!("legB: sequential cross-check aborted: {e}");
@@ -596,6 +602,10 @@ fn leg_b(o: &Opts) -> i32 {
                     }
                 }
             }
+        }
+        if sel.iter().any(|gi| unjudgeable.contains(gi)) {
+            rep.count("runs_skipped_standin_disagreement", 1);
+            continue;
         }
         let sc = draw_scenario(&mut rng, &cases);
         // schedule 0: never switch voluntarily -> sequential step count
